@@ -1,2 +1,293 @@
-From EO Require Import Prelude.Py Model.Spec Model.GenPkg.
-Theorem C18_placeholder : True. Proof. exact I. Qed.
+(* C18 - For every valid specification tree the generator succeeds, and its output is a pure function of the XML:
+   repeated runs, different hash seeds and different directory enumeration orders produce byte-identical files.
+   The output is a complete importable package in which every declared enum, struct and packet is a class exported
+   from its documented subpackage and from the top-level package.
+
+   Model: Model/GenPkg.v.  `generate` is a total function (no failure mode), so "succeeds" is by construction; the two
+   sources of nondeterminism of the Python program are explicit inputs: the iteration order of the import set (the
+   argument list of render_imports) and the os.walk order (the order of the rfile list). *)
+From EO Require Import Prelude.Py Model.Spec Model.Elab Model.GenPkg Proofs.GenPkg.
+From Coq Require Import Sorting.Permutation Sorting.Sorted.
+Set Default Timeout 60.
+Open Scope string_scope.
+Open Scope list_scope.
+
+(* ---------------- hash seed: rendering of an import set ---------------- *)
+
+(* the rendering depends only on the SET of import lines: not on duplicates, not on iteration order *)
+Theorem C18_render_set : forall l l', (forall x, In x l <-> In x l') -> render_imports l = render_imports l'.
+Proof. exact render_imports_set. Qed.
+
+Theorem C18_hashseed : forall l l', Permutation l l' -> render_imports l = render_imports l'.
+Proof.
+  intros l l' Hp. apply C18_render_set. intros x.
+  split; apply Permutation_in; [exact Hp | apply Permutation_sym; exact Hp].
+Qed.
+
+Theorem C18_render_complete : forall l x, In x (render_imports l) <-> In x l.
+Proof. exact render_imports_In. Qed.
+
+Theorem C18_render_nodup : forall l, NoDup (render_imports l).
+Proof. exact render_imports_NoDup. Qed.
+
+Theorem C18_future_first : forall l a b pre post,
+  render_imports l = pre ++ a :: b :: post -> is_future b = true -> is_future a = true.
+Proof.
+  intros l a b pre post Heq Hb. unfold render_imports in Heq.
+  eapply (split_adjacent is_future); [| |exact Heq|exact Hb]; apply Forall_forall; intros x Hx;
+    apply filter_In in Hx; destruct Hx as [_ Hx]; [exact Hx | apply negb_true_iff; exact Hx].
+Qed.
+
+(* stronger: the exact shape.  Both blocks are in descending order and together they are the deduplicated input. *)
+Theorem C18_render_shape : forall l,
+  exists fut rest, render_imports l = fut ++ rest /\
+    Forall (fun x => is_future x = true) fut /\ Forall (fun x => is_future x = false) rest /\
+    StronglySorted (fun x y => str_leb y x = true) fut /\ StronglySorted (fun x y => str_leb y x = true) rest /\
+    Permutation (dedup l) (fut ++ rest).
+Proof.
+  intros l. exists (filter is_future (sort_desc (dedup l))), (filter (fun x => negb (is_future x)) (sort_desc (dedup l))).
+  split; [reflexivity|]. repeat split.
+  - apply Forall_forall. intros x Hx. apply filter_In in Hx. apply Hx.
+  - apply Forall_forall. intros x Hx. apply filter_In in Hx. apply negb_true_iff, Hx.
+  - apply (filter_sorted is_future), sort_desc_sorted.
+  - apply (filter_sorted (fun x => negb (is_future x))), sort_desc_sorted.
+  - apply render_imports_perm.
+Qed.
+
+(* rendering is idempotent: the rendered lines have the same set of elements as the input, so rendering them again
+   gives the same list *)
+Theorem C18_render_idempotent_set : forall l, render_imports (render_imports l) = render_imports l.
+Proof. intros l. apply C18_render_set. intros x. apply C18_render_complete. Qed.
+
+(* str_leb, the comparison behind sorted(), is a total order *)
+Theorem C18_str_leb_total_order :
+  (forall a, str_leb a a = true) /\
+  (forall a b, str_leb a b = true -> str_leb b a = true -> a = b) /\
+  (forall a b c, str_leb a b = true -> str_leb b c = true -> str_leb a c = true) /\
+  (forall a b, str_leb a b = true \/ str_leb b a = true).
+Proof.
+  split; [exact str_leb_refl|]. split; [exact str_leb_antisym|]. split; [exact str_leb_trans | exact str_leb_total].
+Qed.
+
+(* ---------------- directory enumeration order ---------------- *)
+
+Theorem C18_walk_order : forall fs fs' out, valid_layout fs = true -> Permutation fs fs' ->
+  forall p, fs_get (generate fs' out) p = fs_get (generate fs out) p.
+Proof.
+  intros fs fs' out Hv Hp p.
+  destruct (in_dec string_dec p (all_paths fs)) as [Hin|Hn].
+  - unfold all_paths in Hin. apply in_map_iff in Hin. destruct Hin as [[q c] [Hq Hin]]. cbn [fst] in Hq. subst q.
+    rewrite (generate_get_written fs out p c Hv Hin).
+    apply generate_get_written; [exact (valid_layout_perm fs fs' Hp Hv)|].
+    exact (Permutation_in _ (outputs_perm fs fs' Hp) Hin).
+  - rewrite (generate_get_untouched fs out p Hn). apply generate_get_untouched.
+    intros Hin. apply Hn. unfold all_paths in *.
+    exact (Permutation_in _ (Permutation_sym (Permutation_map fst (outputs_perm fs fs' Hp))) Hin).
+Qed.
+
+(* validity of the layout is itself independent of the walk order *)
+Theorem C18_valid_layout_order : forall fs fs', Permutation fs fs' -> valid_layout fs = valid_layout fs'.
+Proof.
+  intros fs fs' Hp. destruct (valid_layout fs) eqn:Hv.
+  - symmetry. exact (valid_layout_perm fs fs' Hp Hv).
+  - destruct (valid_layout fs') eqn:Hv'; [|reflexivity].
+    rewrite (valid_layout_perm fs' fs (Permutation_sym Hp) Hv') in Hv. discriminate.
+Qed.
+
+(* ---------------- repeated runs / pre-populated output directory ---------------- *)
+
+(* (no layout hypothesis needed: a written path holds the LAST write to it, whatever was there before) *)
+Theorem C18_written_independent_of_old_strong : forall fs out out' p, In p (all_paths fs) ->
+  fs_get (generate fs out) p = fs_get (generate fs out') p.
+Proof. intros fs out out' p Hin. rewrite !generate_get. apply last_write_in. exact Hin. Qed.
+
+Theorem C18_written_independent_of_old : forall fs out out' p, valid_layout fs = true -> In p (all_paths fs) ->
+  fs_get (generate fs out) p = fs_get (generate fs out') p.
+Proof. intros fs out out' p _. apply C18_written_independent_of_old_strong. Qed.
+
+Theorem C18_untouched : forall fs out p, ~ In p (all_paths fs) -> fs_get (generate fs out) p = fs_get out p.
+Proof. exact generate_get_untouched. Qed.
+
+Theorem C18_idempotent_strong : forall fs out p, fs_get (generate fs (generate fs out)) p = fs_get (generate fs out) p.
+Proof.
+  intros fs out p. destruct (in_dec string_dec p (all_paths fs)) as [Hin|Hn].
+  - apply C18_written_independent_of_old_strong. exact Hin.
+  - apply C18_untouched. exact Hn.
+Qed.
+
+Theorem C18_idempotent : forall fs out p, valid_layout fs = true ->
+  fs_get (generate fs (generate fs out)) p = fs_get (generate fs out) p.
+Proof. intros fs out p _. apply C18_idempotent_strong. Qed.
+
+(* all three sources at once: another walk order AND another pre-existing output give the same file at every written path *)
+Theorem C18_pure_function : forall fs fs' out out' p, valid_layout fs = true -> Permutation fs fs' -> In p (all_paths fs) ->
+  fs_get (generate fs' out') p = fs_get (generate fs out) p.
+Proof.
+  intros fs fs' out out' p Hv Hp Hin. rewrite (C18_walk_order fs fs' out' Hv Hp p).
+  apply C18_written_independent_of_old_strong. exact Hin.
+Qed.
+
+(* every written path exists afterwards, with a content that is one of the generated ones *)
+Theorem C18_written_present : forall fs out p, In p (all_paths fs) ->
+  exists c, In (p, c) (flat_map file_outputs fs) /\ fs_get (generate fs out) p = Some c.
+Proof. intros fs out p Hin. rewrite generate_get. apply last_write_some. exact Hin. Qed.
+
+(* ---------------- exports ---------------- *)
+
+Theorem C18_exports : forall fs out f d, valid_layout fs = true -> In f fs -> In d (file_decls f) ->
+  fs_get (generate fs out) (module_path d) = Some (CModule d) /\
+  exists lines, fs_get (generate fs out) (init_path (rf_path f)) = Some (CInit lines) /\ In (init_line d) lines.
+Proof.
+  intros fs out f d Hv Hf Hd. split.
+  - apply generate_get_written; [exact Hv | exact (module_output_in fs f d Hf Hd)].
+  - exists (render_imports (map init_line (file_decls f))). split.
+    + apply generate_get_written; [exact Hv | exact (init_output_in fs f Hf)].
+    + apply C18_render_complete. apply in_map. exact Hd.
+Qed.
+
+(* the __init__ of a directory star-imports EXACTLY the modules of the types declared there, each once *)
+Theorem C18_init_exact : forall fs out f, valid_layout fs = true -> In f fs ->
+  exists lines, fs_get (generate fs out) (init_path (rf_path f)) = Some (CInit lines) /\ NoDup lines /\
+    forall x, In x lines <-> exists d, In d (file_decls f) /\ x = init_line d.
+Proof.
+  intros fs out f Hv Hf. exists (render_imports (map init_line (file_decls f))). split; [|split].
+  - apply generate_get_written; [exact Hv | exact (init_output_in fs f Hf)].
+  - apply C18_render_nodup.
+  - intros x. rewrite C18_render_complete, in_map_iff. split; intros [d [H1 H2]]; exists d; auto.
+Qed.
+
+(* the module file lives in the directory of the protocol.xml that declares the type *)
+Theorem C18_module_in_declaring_dir : forall f d, In d (file_decls f) -> d_dir d = rf_path f.
+Proof.
+  intros f d Hd. unfold file_decls in Hd. rewrite !in_app_iff, !in_map_iff in Hd.
+  destruct Hd as [[e [He _]]|[[s [Hs _]]|[p [Hp _]]]]; subst d; reflexivity.
+Qed.
+
+(* ---------------- snake case ---------------- *)
+
+Theorem C18_snake_lowercase : forall s, (forall c, In c (list_ascii_of_string s) -> is_upper c = false) -> snake s = s.
+Proof. intros s. apply snake_from_lowercase. Qed.
+
+Theorem C18_snake_no_upper : forall s c, In c (list_ascii_of_string (snake s)) -> is_upper c = false.
+Proof. intros s c. apply snake_from_no_upper. Qed.
+
+Theorem C18_snake_idempotent : forall s, snake (snake s) = snake s.
+Proof. intros s. apply C18_snake_lowercase. apply C18_snake_no_upper. Qed.
+
+(* the first letter is only lower-cased (never prefixed by an underscore) and nothing is dropped *)
+Theorem C18_snake_head : forall c t, exists r, snake (String c t) = String (lower_ascii c) r.
+Proof. intros c t. exists (snake_from (Some c) t). reflexivity. Qed.
+Theorem C18_snake_length : forall s, (String.length s <= String.length (snake s))%nat.
+Proof. intros s. apply snake_from_length. Qed.
+
+Print Assumptions C18_hashseed.
+Print Assumptions C18_render_set.
+Print Assumptions C18_render_complete.
+Print Assumptions C18_render_nodup.
+Print Assumptions C18_future_first.
+Print Assumptions C18_render_shape.
+Print Assumptions C18_render_idempotent_set.
+Print Assumptions C18_str_leb_total_order.
+Print Assumptions C18_walk_order.
+Print Assumptions C18_valid_layout_order.
+Print Assumptions C18_written_independent_of_old_strong.
+Print Assumptions C18_written_independent_of_old.
+Print Assumptions C18_untouched.
+Print Assumptions C18_idempotent_strong.
+Print Assumptions C18_idempotent.
+Print Assumptions C18_pure_function.
+Print Assumptions C18_written_present.
+Print Assumptions C18_exports.
+Print Assumptions C18_init_exact.
+Print Assumptions C18_module_in_declaring_dir.
+Print Assumptions C18_snake_lowercase.
+Print Assumptions C18_snake_no_upper.
+Print Assumptions C18_snake_idempotent.
+Print Assumptions C18_snake_head.
+Print Assumptions C18_snake_length.
+
+(* ---------------- examples ---------------- *)
+
+Example ex_snake_1 : snake "PacketFamily" = "packet_family".           Proof. vm_compute. reflexivity. Qed.
+Example ex_snake_2 : snake "NPCMapInfo" = "npc_map_info".               Proof. vm_compute. reflexivity. Qed.
+Example ex_snake_3 : snake "InitInitServerPacket" = "init_init_server_packet". Proof. vm_compute. reflexivity. Qed.
+Example ex_snake_4 : snake "EIFRecord" = "eif_record".                  Proof. vm_compute. reflexivity. Qed.
+Example ex_snake_5 : snake "Coords" = "coords".                         Proof. vm_compute. reflexivity. Qed.
+Example ex_snake_6 : snake "already_snake_1" = "already_snake_1".       Proof. vm_compute. reflexivity. Qed.
+Example ex_snake_7 : snake "PlayerKilledState" = "player_killed_state". Proof. vm_compute. reflexivity. Qed.
+Example ex_snake_8 : snake "" = "".                                     Proof. vm_compute. reflexivity. Qed.
+
+(* snake is not injective, which is why distinct output paths are a hypothesis (valid_layout) and not a theorem *)
+Example ex_snake_clash : snake "NPCInfo" = snake "NpcInfo" /\ "NPCInfo" <> "NpcInfo".
+Proof. split; [vm_compute; reflexivity | discriminate]. Qed.
+
+Definition imports_a : list string :=
+  [ "from typing import Optional"; "from __future__ import annotations"; "from ..coords import Coords";
+    "from typing import Optional"; "from typing import cast"; "from ....data.eo_writer import EoWriter";
+    "from __future__ import annotations"; "from collections.abc import Iterable" ].
+Definition imports_b : list string :=
+  [ "from collections.abc import Iterable"; "from ....data.eo_writer import EoWriter"; "from typing import cast";
+    "from typing import Optional"; "from ..coords import Coords"; "from __future__ import annotations" ].
+Example ex_render_a : render_imports imports_a =
+  [ "from __future__ import annotations"; "from typing import cast"; "from typing import Optional";
+    "from collections.abc import Iterable"; "from ..coords import Coords"; "from ....data.eo_writer import EoWriter" ].
+Proof. vm_compute. reflexivity. Qed.
+Example ex_render_ab : render_imports imports_a = render_imports imports_b.
+Proof. vm_compute. reflexivity. Qed.
+Example ex_render_rev : render_imports (rev imports_a) = render_imports imports_a.
+Proof. vm_compute. reflexivity. Qed.
+
+(* a two-file tree *)
+Definition ex_root : rfile :=
+  mkRFile "" [mkREnum (Some "AdminLevel") (Some "char") []]
+             [mkRStruct (Some "Coords") []; mkRStruct (Some "NPCMapInfo") []] [].
+Definition ex_client : rfile :=
+  mkRFile "net/client" [] [mkRStruct (Some "ByteCoords") []]
+          [mkRPacket (Some "Init") (Some "Init") []; mkRPacket (Some "Walk") (Some "Player") []].
+Definition ex_old : list (string * content) :=
+  [("coords.py", CInit ["stale"]); ("README.md", CInit ["kept"])].
+
+Example ex_layout : valid_layout [ex_root; ex_client] = true.
+Proof. vm_compute. reflexivity. Qed.
+Example ex_paths : all_paths [ex_root; ex_client] =
+  [ "admin_level.py"; "coords.py"; "npc_map_info.py"; "__init__.py";
+    "net/client/byte_coords.py"; "net/client/init_init_client_packet.py"; "net/client/walk_player_client_packet.py";
+    "net/client/__init__.py" ].
+Proof. vm_compute. reflexivity. Qed.
+(* both walk orders give the same file at every written path, at a pre-existing unrelated path and at a missing one
+   (by computation), and at every path whatsoever (by the theorem) *)
+Example ex_walk_order_get : forall p, In p ("README.md" :: "missing.py" :: all_paths [ex_root; ex_client]) ->
+  fs_get (generate [ex_client; ex_root] ex_old) p = fs_get (generate [ex_root; ex_client] ex_old) p.
+Proof.
+  intros p Hin. vm_compute in Hin.
+  repeat (destruct Hin as [Hp|Hin]; [subst p; vm_compute; reflexivity|]). destruct Hin.
+Qed.
+Example ex_walk_order_all : forall p,
+  fs_get (generate [ex_client; ex_root] ex_old) p = fs_get (generate [ex_root; ex_client] ex_old) p.
+Proof. intros p. apply C18_walk_order; [exact ex_layout | apply perm_swap]. Qed.
+Example ex_init_root : fs_get (generate [ex_client; ex_root] ex_old) "__init__.py" =
+  Some (CInit ["from .npc_map_info import *"; "from .coords import *"; "from .admin_level import *"]).
+Proof. vm_compute. reflexivity. Qed.
+Example ex_init_client : fs_get (generate [ex_root; ex_client] []) "net/client/__init__.py" =
+  Some (CInit ["from .walk_player_client_packet import *"; "from .init_init_client_packet import *"; "from .byte_coords import *"]).
+Proof. vm_compute. reflexivity. Qed.
+Example ex_stale_overwritten : fs_get (generate [ex_root; ex_client] ex_old) "coords.py" = Some (CModule (mkDecl "" "Coords")).
+Proof. vm_compute. reflexivity. Qed.
+Example ex_other_kept : fs_get (generate [ex_root; ex_client] ex_old) "README.md" = Some (CInit ["kept"]).
+Proof. vm_compute. reflexivity. Qed.
+Example ex_rerun : generate [ex_root; ex_client] (generate [ex_root; ex_client] ex_old) = generate [ex_root; ex_client] ex_old.
+Proof. vm_compute. reflexivity. Qed.
+
+(* valid_layout is necessary for C18_exports: two types of one directory whose names differ only in capitalisation share
+   a module file, and the first one is not exported *)
+Definition ex_clash : rfile := mkRFile "" [] [mkRStruct (Some "NPCInfo") []; mkRStruct (Some "NpcInfo") []] [].
+Example ex_clash_invalid : valid_layout [ex_clash] = false.
+Proof. vm_compute. reflexivity. Qed.
+Example ex_clash_lost : fs_get (generate [ex_clash] []) (module_path (mkDecl "" "NPCInfo")) = Some (CModule (mkDecl "" "NpcInfo")).
+Proof. vm_compute. reflexivity. Qed.
+(* ... and for C18_walk_order: two protocol files claiming the same directory *)
+Definition ex_dirA : rfile := mkRFile "pub" [] [mkRStruct (Some "A") []] [].
+Definition ex_dirB : rfile := mkRFile "pub" [] [mkRStruct (Some "B") []] [].
+Example ex_same_dir_order_matters :
+  fs_get (generate [ex_dirA; ex_dirB] []) "pub/__init__.py" <> fs_get (generate [ex_dirB; ex_dirA] []) "pub/__init__.py".
+Proof. vm_compute. discriminate. Qed.
